@@ -142,6 +142,16 @@ std::string one(Blocks& B, const std::string& tok) {
         else return "bad-op";
         return std::to_string(r);
     }
+    if (k == 'r' && T == "md") {
+        // the application re-uses ONE MalformedMessageData object for every call, assigning its public members
+        static thread_local CDNS::MalformedMessageData reused;
+        auto p = vh::split(a[2], '.');
+        reused.server_address_index = optnum<CDNS::index_t>(p[0]);
+        reused.server_port = optnum<uint16_t>(p[1]);
+        reused.mm_transport_flags = optnum<CDNS::QueryResponseTransportFlagsMask>(p[2]);
+        if (p[3] != "-") reused.mm_payload = rec::X(p[3]); else reused.mm_payload = boost::none;
+        return std::to_string(b.add_malformed_message_data(reused));
+    }
     if (k == 'v') {
         // BlockTable::add_value – what the reader does for every table entry of a file (equal values are kept apart)
         CDNS::index_t r = 0;
